@@ -1148,6 +1148,7 @@ class NestedPipeFunc(PipeFunc):
         if all(m is None for m in mapspecs):
             return None
         _validate_combinable_mapspecs(mapspecs)
+        _validate_consistent_array_use(self.pipeline.functions)
         axes = mapspec_axes(mapspecs)  # type: ignore[arg-type]
         return MapSpec(
             # a parameter that no nested function maps over (a constant, a default,
@@ -1384,6 +1385,34 @@ def _validate_combinable_mapspecs(mapspecs: list[MapSpec | None]) -> None:
         if m.output_indices != first.output_indices:
             msg = "Cannot combine MapSpecs with different output mappings."
             raise ValueError(msg)
+
+
+def _validate_consistent_array_use(functions: Sequence[PipeFunc]) -> None:
+    """The nested function is called once per index with ONE element of each mapped array.
+
+    So every nested function has to take an array the same way: with the same axes in
+    every MapSpec that mentions it, and not whole in one function while another maps over it.
+    """
+    axes: dict[str, tuple[str | None, ...]] = {}
+    for f in functions:
+        assert f.mapspec is not None
+        for spec in (*f.mapspec.inputs, *f.mapspec.outputs):
+            if axes.setdefault(spec.name, spec.axes) != spec.axes:
+                msg = (
+                    f"Cannot combine MapSpecs that index `{spec.name}` differently:"
+                    f" `{ArraySpec(spec.name, axes[spec.name])}` and `{spec}`."
+                )
+                raise ValueError(msg)
+    for f in functions:
+        assert f.mapspec is not None
+        listed = f.mapspec.input_names
+        for p in f.parameters:
+            if p in axes and p not in listed and p not in f._bound:
+                msg = (
+                    f"Cannot combine MapSpecs: `{p}` is mapped over by one of the functions"
+                    f" but `{f.__name__}` takes it whole."
+                )
+                raise ValueError(msg)
 
 
 def _default_output_picker(output: Any, name: str, output_name: OUTPUT_TYPE) -> Any:
